@@ -25,11 +25,11 @@ import (
 )
 
 func Spec(tier string, seed int64, workers int) gharness.Spec {
-	n := 12
+	n, budget := 12, 12*time.Minute
 	if tier == "thorough" {
-		n = 160
+		n, budget = 160, 60*time.Minute
 	}
-	sp := gharness.Spec{Property: "C17", Tier: tier, Seed: seed, Workers: workers, Pkg: "./build", Level: "exploration", EnumShards: workers, Timeout: 90 * time.Minute,
+	sp := gharness.Spec{Property: "C17", Tier: tier, Seed: seed, Workers: workers, Pkg: "./build", Level: "exploration", EnumShards: workers, Timeout: 3 * time.Hour, Budget: budget,
 		EnumTests: []string{"TestVerifC17"},
 		Prepare: func(scratch string) ([]string, error) {
 			root := filepath.Join(scratch, "corpus")
